@@ -105,7 +105,7 @@ Ltac pj := cbn [p_wg p_subs p_queue p_ws p_added p_log p_closed].
 
 Lemma pstep_inv s t s' : PInv s -> pstep s t = Some s' -> PInv s'.
 Proof.
-  intros I H. destruct t as [j|k|k]; cbn [Pool.pstep] in H.
+  intros I H. destruct t as [j|k|k|]; cbn [Pool.pstep] in H.
   - (* a submitter *)
     destruct (nth_error (p_subs s) j) as [x|] eqn:Hj; [|discriminate].
     destruct (s_ops x) as [|op rest] eqn:Hops; [discriminate|].
@@ -252,6 +252,14 @@ Proof.
     + rewrite (perm_len _ _ Q2), Hw, (perm_len _ _ Q1). reflexivity.
     + unfold whereabouts. pj. rewrite Hc, Q1, Q2. apply Permutation_refl.
     + rewrite Hs, Q1, Q2. apply Permutation_refl.
+    + apply I.
+    + apply I.
+  - (* the observer: two pseudo-events in the log, neither a start nor an end *)
+    inversion H; subst; clear H.
+    constructor; pj.
+    + apply I.
+    + unfold whereabouts. pj. rewrite ends_app. cbn [ends flat_map app]. rewrite app_nil_r. apply (P_cons _ I).
+    + rewrite starts_app, ends_app. cbn [starts ends flat_map app]. rewrite !app_nil_r. apply (P_started _ I).
     + apply I.
     + apply I.
 Qed.
